@@ -536,6 +536,12 @@ class TypeGen:
         for n in tast.walk(t):
             if n[0] in ("date", "datetime", "time", "stype"):      # an annotated SerializableType speaks date on the wire
                 return False
+            if n[0] == "tv" and n[1] not in seen:
+                seen.add(n[1])
+                df = self.fam.defs.get(n[1], {})
+                subs = list(df.get("constraints") or ()) + ([df["bound"]] if df.get("bound") is not None else [])
+                if not all(self._engine_safe(c, seen) for c in subs):
+                    return False
             if n[0] in ("nt", "td") and n[1] not in seen:
                 seen.add(n[1])
                 if not all(self._engine_safe(f["t"], seen) for f in self.fam.defs[n[1]]["fields"]):
